@@ -9,6 +9,7 @@ import tempfile
 from hypothesis import strategies as st
 
 from vp.core import Case, Sub, V
+from vp.fuzz import fuzz_custom
 
 PROPERTY = "C16"
 RULE = ("Hypothesis-generated texts / byte strings / cut points / charsets / chunk sizes / "
@@ -499,4 +500,8 @@ def subchecks(tier):
         Sub("stream_file", run_stream, s_stream_case(), 2500 if q else 200000),
         Sub("content_type_roundtrip", run_ct, s_ct_case(), 2500 if q else 200000),
         Sub("snapshots", run_snap, s_snap_case(), 1000 if q else 60000),
+        Sub("content_type_fuzz", run_ct, custom=fuzz_custom("props.c16", "content_type_roundtrip", "testtools.testresult.real,testtools.content_type", 30000),
+            note="atheris/libFuzzer coverage-guided campaign over ContentType -> MIME string -> _make_content_type (thorough only)"),
+        Sub("as_text_fuzz", run_decode, custom=fuzz_custom("props.c16", "as_text_chunking", "testtools.content", 30000),
+            note="atheris/libFuzzer coverage-guided campaign over incremental decoding vs whole-string decoding (thorough only)"),
     ]
